@@ -420,3 +420,72 @@ func vcAssumeConsistent(cfg *telemetry.UploadConfig) {
 		}
 	}
 }
+
+// VC01_two: the same clauses with two files in the week (entry parameters choose the
+// bounds): builds of one program that differ in version, Go version, GOOS or GOARCH get
+// separate verdicts and separate sums.
+func VC01_two() { VC01_report() }
+
+// VC01_builds: a concrete one-program configuration and two files of the week whose
+// build metadata are arbitrary: each build five-tuple gets its own verdict and its own sum
+// (builds differing from the approved one in a single field, in either file order).
+func VC01_builds() {
+	cfg := &telemetry.UploadConfig{GOOS: []string{"o"}, GOARCH: []string{"a"}, GoVersion: []string{"g"}, SampleRate: 1,
+		Programs: []*telemetry.ProgramConfig{{Name: "p", Versions: []string{"1"}, Counters: []telemetry.CounterConfig{{Name: "c", Rate: 1}}}}}
+	u := vcUploader(cfg, "on 2020-01-01")
+	vcRandomX = 0.5
+	if !vrt.IsSymbolic() {
+		vrand.Next = []byte{0, 0, 0, 0, 0, 0, 0xe8, 0x3f} // fraction 0.75: X = 0.5
+	}
+	u.cache.m = map[string]*counter.File{}
+	var files []*counter.File
+	var fnames []string
+	for i := 0; i < 2; i++ {
+		f := &counter.File{Meta: map[string]string{}, Count: map[string]uint64{}}
+		for _, k := range []string{"Program", "Version", "GoVersion", "GOOS", "GOARCH"} {
+			f.Meta[k] = vrt.String(1)
+		}
+		v := vrt.U64()
+		vrt.Assume(v > 0 && v < 1<<62)
+		f.Count["c"] = v
+		fn := vcDir + "/local/f" + string(rune('0'+i)) + ".v1.count"
+		vos.AddFile(fn, []byte("x"))
+		u.cache.m[fn] = f
+		files = append(files, f)
+		fnames = append(fnames, fn)
+	}
+	start := time.Date(2024, 1, 1, 0, 0, 0, 0, time.UTC)
+	fname, err := u.createReport(start, vcExpiry, fnames, "")
+	vrt.Assert(err == nil && fname != "", "the week's report is created")
+	if err != nil || fname == "" {
+		return
+	}
+	u.uploadReport(fname)
+	vrt.Assert(len(vhttp.Log) == 1, "one request")
+	if len(vhttp.Log) != 1 {
+		return
+	}
+	r := vcDecodeReport(vhttp.Log[0].Body)
+	vrt.Assert(r != nil, "request body is a report")
+	if r == nil {
+		return
+	}
+	ok := func(m map[string]string) bool {
+		return m["Program"] == "p" && m["Version"] == "1" && m["GoVersion"] == "g" && m["GOOS"] == "o" && m["GOARCH"] == "a"
+	}
+	for _, p := range r.Programs {
+		vrt.Assert(p.Program == "p" && p.Version == "1" && p.GoVersion == "g" && p.GOOS == "o" && p.GOARCH == "a", "only the approved build is uploaded")
+		var sum int64
+		for _, f := range files {
+			if ok(f.Meta) {
+				sum += int64(f.Count["c"])
+			}
+		}
+		vrt.Assert(p.Counters["c"] == sum, "the uploaded value is the sum over the files of exactly that build")
+	}
+	for _, f := range files {
+		if ok(f.Meta) {
+			vrt.Assert(len(r.Programs) == 1, "the approved build is uploaded whatever other builds the week holds")
+		}
+	}
+}
